@@ -51,6 +51,10 @@ pub trait ChainStore: Send + Sync + Sized {
                 .to_entity();
             return Some(raw_block.into_view());
         }
+        // The header may come from the read cache, which is shared with newer views: a view that
+        // does not hold the block itself (a snapshot taken before it arrived) would otherwise hand
+        // out cached parts around an empty body.
+        self.get(COLUMN_BLOCK_HEADER, h.as_slice())?;
         let body = self.get_block_body(h);
         // a block is removed column by column (a block rejected by verification, a truncation):
         // a reader racing with the removal may still find the header; the block is gone then
